@@ -32,6 +32,48 @@ T = {
  "C20-2": ("C20", "809b9c4", "two overlapping Connect calls for the same peer (check-then-act)", ["C20"], "VIOLATION (interpreter-schedule, P=1) by VerifC20ConnectRace"),
  "C01-2": ("C01", "809b9c4", "two writers' concurrent branches reach a reader in separate batches (only the last batch's heads are cached), then the reader restarts from its own disk", ["C01"], "VIOLATION by the batched-reader restart route added to Converge (all three store harnesses)"),
  "C16-2": ("C16", "809b9c4", "a local write on a key-value/document store while a replicated batch is inside its view rebuild (coalesced rebuild returns before the view holds the write)", ["C16"], "VIOLATION (interpreter-schedule: local write injected at the view-rebuild lock) by VerifC16WriteDuringMerge"),
+ # ---- round 3 (base 809b9c4)
+ "C01-3": ("C01", "809b9c4", "partial Load(k) followed by a lagging peer's head that fills in ancestors without moving the log's heads (view rebuild skipped when heads are unchanged)", ["C01"], "VIOLATION (native replay) after the partial-load route was added to Converge"),
+ "C01-4": ("C01", "809b9c4", "two writers put the same document key concurrently (equal Lamport time); the two entries reach a replica in separate index updates", ["C01"], "VIOLATION (native replay) by VerifC01Docs"),
+ "C02-3": ("C02", "809b9c4", "a peer that was sent the heads once comes back without them (restart with an in-memory cache) while the sender's heads are unchanged", ["C02"], "VIOLATION (native replay) by VerifSysHeal (storage-losing restart) after perfect-hash stand-ins for sha256"),
+ "C02-4": ("C02", "809b9c4", "same mechanism as C02-3 (digest memo per peer)", ["C02"], "VIOLATION (native replay) by VerifSysHeal"),
+ "C03-3": ("C03", "809b9c4", "one instance opens two databases with manifest-less controllers and different write lists, the permissive one first", ["C03"], "VIOLATION (native replay) by VerifC03Instance"),
+ "C04-3": ("C04", "809b9c4", "a valid entry whose refs lead to a chain of >= 2 entries of another database; replica restarted and loaded (whole ancestry fetched as one log)", ["C04"], "VIOLATION (native replay) by VerifC04ForeignChain"),
+ "C05-3": ("C05", "809b9c4", "crash exactly between Delete(_remoteHeads) and Put(_localHeads) of a local write that follows a replication", ["C05"], "VIOLATION (native replay), crash index found by the solver"),
+ "C05-4": ("C05", "809b9c4", "open by name with Create (Overwrite) of an existing database fails after the address was determined; then any reopen", ["C05"], "VIOLATION by VerifC05Reopen"),
+ "C06-3": ("C06", "809b9c4", "replica merges an older concurrent write to a key it holds a newer operation for (incremental kv index)", ["C06"], "VIOLATION (native replay)"),
+ "C07-3": ("C07", "809b9c4", "case-insensitive exact Get while documents whose keys differ only by case exist and one is all lower case", ["C07"], "VIOLATION (native replay) by VerifC07Get"),
+ "C08-3": ("C08", "809b9c4", "single-entry merge of an entry that ties in Lamport time with the last listed one and has the smaller writer id, then a larger merge", ["C08"], "VIOLATION (native replay) by VerifC01Log"),
+ "C09-3": ("C09", "809b9c4", "head exchanges for two databases arrive back to back on one direct channel (decode target reused)", ["C09"], "VIOLATION by VerifSysTwoDBs"),
+ "C10-3": ("C10", "809b9c4", "forged-author head's log is first in the replicator buffer of a batch that also holds valid entries", ["C10"], "VIOLATION (native replay)"),
+ "C11-3": ("C11", "809b9c4", "as many failed fetches as there are fetch slots", ["C11"], "VIOLATION (native replay) with concurrency 1"),
+ "C12-3": ("C12", "809b9c4", "a head with a wrong hash and a valid announcement waiting in the topic buffer at the same time", ["C12"], "VIOLATION (native replay) after burst pacing was added"),
+ "C13-3": ("C13", "809b9c4", "the log grows between GetEntries() and Len() inside SaveSnapshot", ["C13"], "VIOLATION (interpreter-schedule) by VerifC13Concurrent"),
+ "C14-3": ("C14", "809b9c4", "an Open that fails, then a local-only Open (or Create) of the same address", ["C14"], "VIOLATION (native replay) by the failed-open branch of VerifC14Reopen"),
+ "C15-3": ("C15", "809b9c4", "several cached heads (stale remote heads below a newer local head), a limit, and an older head's goroutine taking the join lock first", ["C15"], "VIOLATION (native replay / interpreter-schedule) after schedule exploration was added to VerifC15Load"),
+ "C16-3": ("C16", "809b9c4", "a subscriber that reads batch k's replicated event after batch k+1 was merged", ["C16"], "VIOLATION (native replay) by the late-reader oracle of VerifC05Crash"),
+ "C17-3": ("C17", "809b9c4", "writers B and C append while writer A is inside its _localHeads Put; no later write; restart", ["C17"], "VIOLATION (native replay by turnstile)"),
+ "C18-3": ("C18", "809b9c4", "the context given to NewOrbitDB is cancelled before orbitDB.Close is called", ["C18"], "VIOLATION by VerifSysClose (parent-cancelled-first)"),
+ "C18-4": ("C18", "809b9c4", "Close while a Load is stuck on an unavailable block (caller's context still live)", ["C18"], "VIOLATION (native replay) by VerifC18CloseBlockedLoad"),
+ "C19-3": ("C19", "809b9c4", "LoadFromSnapshot on an open store whose progress already exceeds the snapshot's entry count (re-based on 36187f9 as patch_head.diff)", ["C19"], "VIOLATION (native replay) by VerifC19History with snapshot steps"),
+ "C20-3": ("C20", "809b9c4", "two overlapping Connect calls for one peer (subscribe outside the lock)", ["C20"], "VIOLATION (interpreter-schedule) by VerifC20ConnectRace"),
+ # ---- rounds 4 and 5 (base 36187f9)
+ "C03-4": ("C03", "36187f9", "two manifest-less controllers resolved in one process, the permissive first (package-level sync.Map cache keyed by the undefined address)", ["C03"], "VIOLATION (native replay) by VerifC03Instance after sync.Map was modelled"),
+ "C04-4": ("C04", "36187f9", "announced head whose claimed CID has the same multihash digest and another codec", ["C04"], "VIOLATION (native replay)"),
+ "C06-4": ("C06", "36187f9", "a winning PUT with an empty value followed by a PUT with a value on another key (reused operation struct)", ["C06"], "VIOLATION (native replay) by VerifC06Replay"),
+ "C07-4": ("C07", "36187f9", "a Query between the log append and the index update of a concurrent write", ["C07"], "VIOLATION (interpreter-schedule) by VerifC07ReadDuringWrite"),
+ "C08-4": ("C08", "36187f9", "LT bound at the second entry of the listing", ["C08"], "VIOLATION (native replay) by VerifC08Window"),
+ "C09-4": ("C09", "36187f9", "database A is handed a valid entry whose log id is database B's address (replicator events on the shared bus filtered by the entry's own log id)", ["C09", "C12"], "VIOLATION (native replay) by VerifC09Isolation (foreign-head-on-a) and VerifSysMalformed"),
+ "C10-4": ("C10", "36187f9", "rejected entry's log first in the replicator buffer (coalesced into one log)", ["C10"], "VIOLATION (native replay)"),
+ "C11-4": ("C11", "36187f9", "a request cancelled while a worker waits for a fetch slot (pending counter never decremented)", ["C11"], "VIOLATION by VerifC11Abort / VerifC11CancelAnywhere"),
+ "C12-4": ("C12", "36187f9", "a syntactically malformed payload followed by a valid message on the same instance (sticky json.Decoder error)", ["C12"], "VIOLATION (native replay) by VerifSysMalformed after the streaming JSON API was modelled"),
+ "C13-4": ("C13", "36187f9", "snapshot saved while the replication queue is non-empty; queued block unavailable at load time", ["C13"], "VIOLATION (native replay) by VerifC13PendingQueue"),
+ "C14-4": ("C14", "36187f9", "a name containing a percent-escape that survives one decoding (%25..)", ["C14"], "VIOLATION (native replay) by VerifC14AddressRoundTrip (L=5) after net/url and strings.Builder were modelled"),
+ "C15-4": ("C15", "36187f9", "several heads whose single histories are shorter than the limit while their union is longer", ["C15"], "VIOLATION (native replay)"),
+ "C16-4": ("C16", "36187f9", "push between the flusher seeing an empty queue and parking on the (unbuffered) wake-up channel; no further emission", ["C16"], "VIOLATION (interpreter-schedule: deadlock) by VerifC16LegacyRace"),
+ "C18-5": ("C18", "36187f9", "a local write whose cache Put lands after the cache was closed (Put returns nil on a closed cache)", ["C18"], "VIOLATION by VerifSysClose (mid-write)"),
+ "C19-4": ("C19", "36187f9", "multi-writer log with more entries than the largest clock, then a local write (clock not above the maximum)", ["C19"], "VIOLATION (native replay) by VerifC19Step (solver model) and VerifC19History"),
+ "C20-4": ("C20", "36187f9", "Connect with a context that ends, then Connect again on the same channel object", ["C20"], "VIOLATION (native replay) by VerifC20Reconnect"),
 }
 for seed, (prop, base, needs, by, note) in T.items():
     d = os.path.join(V, "seeded", seed)
@@ -44,6 +86,13 @@ for seed, (prop, base, needs, by, note) in T.items():
         conf = lines[-1] if lines else ""
     demo = [os.path.relpath(p, d) for p in glob.glob(os.path.join(d, "**", "*"), recursive=True)
             if os.path.isfile(p) and ("_test.go" in p)]
+    det = {}
+    dp = os.path.join(d, "detect.json")
+    if os.path.exists(dp):
+        try:
+            det = json.load(open(dp))
+        except Exception:
+            det = {}
     meta = {
         "seed": seed, "breaks_property": prop, "base_commit": base,
         "needs_to_manifest": needs,
@@ -51,6 +100,7 @@ for seed, (prop, base, needs, by, note) in T.items():
         "confirmed_by_me": conf or "pending (see confirm.log)",
         "what_i_ran": "tools/confirm_seed.sh: scratch worktree at base_commit outside /repo and /verif; git apply; go build ./...; full pinned suite (tools/run_baseline.sh); demonstration with the patch (must fail) and without (must pass); worktree removed. Then tools/try_seed.sh: patch applied to /repo HEAD, ./check <property>, reverted.",
         "detected_by_checks": by, "detection": note,
+        "last_matrix_run": det,
     }
     json.dump(meta, open(os.path.join(d, "meta.json"), "w"), indent=1)
 print("wrote", len(T))
